@@ -64,6 +64,8 @@ func directedE() []ecase {
 		{Spec: eq1(atom{Kind: "fa", A: 0, B: 0.25}), X: &testproto.TestAllTypes{RepeatedFloat: []float32{1, 2}}, Y: &testproto.TestAllTypes{RepeatedFloat: []float32{1.375, 2}}, Label: "repeated float above tolerance"},
 		{Spec: eq1(atom{Kind: "fa", A: 0, B: 1}), X: &testproto.TestAllTypes{DefaultInt32: 1}, Y: &testproto.TestAllTypes{DefaultInt32: 2}, Label: "int under FloatValueApprox"},
 		{Spec: eq1(atom{Kind: "dp", A: 0.125}), X: &testproto.WellKnown{DefaultDuration: &durationpb.Duration{Nanos: 4}}, Y: &testproto.WellKnown{DefaultDuration: &durationpb.Duration{Nanos: 4}}, Label: "DurationValueWithinP same"},
+		{Spec: eq1(atom{Kind: "dp", A: 25}), X: &testproto.WellKnown{DefaultDuration: &durationpb.Duration{Nanos: 4}}, Y: &testproto.WellKnown{DefaultDuration: &durationpb.Duration{Nanos: 5}}, Label: "DurationValueWithinP at the tolerance"},
+		{Spec: eq1(atom{Kind: "dp", A: 12.5}), X: &testproto.WellKnown{DefaultDuration: &durationpb.Duration{Nanos: 5}}, Y: &testproto.WellKnown{DefaultDuration: &durationpb.Duration{Nanos: 4}}, Label: "DurationValueWithinP beyond the tolerance"},
 	}
 	// unknown fields: same records in another order across numbers (equal), within a number (unequal)
 	u := func(b ...byte) *testproto.ForeignMessage {
@@ -122,6 +124,13 @@ func directedV() []vcase {
 		{Spec: one(atom{Kind: "dp", A: 0.125}), Pos: dur, X: d(0, 4), Y: d(0, 4)},
 		{Spec: one(atom{Kind: "dp", A: 0.5}), Pos: dur, X: d(0, 1), Y: d(0, 4)},
 		{Spec: one(atom{Kind: "dp", A: 0.5}), Pos: dur, X: d(0, 0), Y: d(0, 0)},
+		{Spec: one(atom{Kind: "dp", A: 25}), Pos: dur, X: d(0, 4), Y: d(0, 5)},
+		{Spec: one(atom{Kind: "dp", A: 25}), Pos: dur, X: d(0, 5), Y: d(0, 4)},
+		{Spec: one(atom{Kind: "dp", A: 12.5}), Pos: dur, X: d(0, 4), Y: d(0, 5)},
+		{Spec: one(atom{Kind: "dp", A: 100}), Pos: dur, X: d(1, 0), Y: d(2, 0)},
+		{Spec: one(atom{Kind: "dp", A: 300}), Pos: dur, X: d(-1, 0), Y: d(2, 0)},
+		{Spec: one(atom{Kind: "dp", A: 200}), Pos: dur, X: d(-1, 0), Y: d(2, 0)},
+		{Spec: one(atom{Kind: "dp", A: 100}), Pos: dur, X: d(0, 0), Y: d(0, 1)},
 	}
 }
 
